@@ -136,6 +136,11 @@ def check(ctx):
             ok = len(dl) == 1 and ast.unparse(dl[0].value) == "state.delayed and cell.connection.delayedby is not None"
             ctx.ob("C06.d", f"{c.name}.register_cell: delayed = state.delayed and the connection has delays", ok, ast.unparse(dl[0].value) if dl else "missing", rc.where)
         has_delay_term = any(isinstance(x, ast.Attribute) and dotted(x) == "cell.connection.delay" for x in ast.walk(loop))
+        if not has_delay_term:
+            # a per-cell copy of the delays made at registration also applies the delay once (whether it may go stale is C18.a's concern)
+            copies = {n.targets[0].attr for n in walk_own(rc.node) if isinstance(n, ast.Assign) and isinstance(n.targets[0], ast.Attribute)
+                      and dotted(n.targets[0].value) == "state" and any(isinstance(x, ast.Attribute) and dotted(x) == "cell.connection.delay" for x in ast.walk(n.value))}
+            has_delay_term = any(isinstance(x, ast.Attribute) and dotted(x.value) == "state" and x.attr in copies for x in ast.walk(loop) if isinstance(x, ast.Attribute))
         for name, site in sites.items():
             opts = site.attr_options()
             if not (set(opts) & {"synapse.spike", "connection.synspike"}):
